@@ -258,12 +258,12 @@ class SmpteTimeCode(_HHMMSSTimeExpression):
       nb_frames_in_ten_minutes = round(10 * nb_frames_in_one_minute)  # 17982 at 29.97 fps
       drop_frames_per_minute = round(60 * (ndf_frame_rate - frame_rate))  # 2 at 29.97 fps
 
-      nb_of_minute_tens = floor(nb_frames / nb_frames_in_ten_minutes)
+      nb_of_minute_tens = nb_frames // nb_frames_in_ten_minutes
       nb_of_remaining_frames = round(nb_frames % nb_frames_in_ten_minutes)
 
       nb_of_drop_frames_in_tens = drop_frames_per_minute * 9 * nb_of_minute_tens
 
-      nb_of_remaining_minutes = floor((nb_of_remaining_frames - drop_frames_per_minute) / round(nb_frames_in_one_minute))
+      nb_of_remaining_minutes = (nb_of_remaining_frames - drop_frames_per_minute) // round(nb_frames_in_one_minute)
 
       if nb_of_remaining_minutes < 0:
         nb_of_remaining_minutes = 0
@@ -274,9 +274,9 @@ class SmpteTimeCode(_HHMMSSTimeExpression):
 
     fps = ceil(frame_rate)
 
-    h = floor(nb_frames / (60 * 60 * fps))
-    m = floor(nb_frames / (60 * fps)) % 60
-    s = floor(nb_frames / fps) % 60
+    h = nb_frames // (60 * 60 * fps)
+    m = nb_frames // (60 * fps) % 60
+    s = nb_frames // fps % 60
     f = ceil(nb_frames % fps)
 
     return SmpteTimeCode(h, m, s, f, frame_rate)
